@@ -87,13 +87,15 @@ class Check:
                 kf.append(v)
             else:
                 real.append(v)
-        os.makedirs(os.path.join(VERIF, "replay"), exist_ok=True)
-        os.makedirs(os.path.join(VERIF, "evidence"), exist_ok=True)
+        # scratch runs (regression over seeded / refactored trees, RRTK_REPO) keep their output out of the committed directories
+        out_root = os.environ.get("VERIF_OUT_DIR") or VERIF
+        os.makedirs(os.path.join(out_root, "replay"), exist_ok=True)
+        os.makedirs(os.path.join(out_root, "evidence"), exist_ok=True)
         for v in kf:
             print("KNOWN-FINDING: property=%s %s [%s %s]" % (self.pid, known_keys[(v["rule"], v["key"])]["what"], v["rule"], v["key"]))
         for v in real:
             h = hashlib.sha1((v["rule"] + "|" + v["key"]).encode()).hexdigest()[:10]
-            path = os.path.join(VERIF, "replay", "%s-%s.json" % (self.pid, h))
+            path = os.path.join(out_root, "replay", "%s-%s.json" % (self.pid, h))
             json.dump(v, open(path, "w"), indent=1, default=str)
             print("VIOLATION property=%s replay=%s" % (self.pid, path))
             print("  rule=%s key=%s: %s" % (v["rule"], v["key"], v["what"]))
@@ -120,7 +122,7 @@ class Check:
         cov.update(self.extra)
         ev = {"property_id": self.pid, "tier": self.tier, "seed": self.seed, "level": level, "coverage": cov,
               "assumptions": sorted(self.assumptions), "wall_s": round(time.time() - self.t0, 2), "violations": len(real)}
-        json.dump(ev, open(os.path.join(VERIF, "evidence", self.pid + ".json"), "w"), indent=1, default=str)
+        json.dump(ev, open(os.path.join(out_root, "evidence", self.pid + ".json"), "w"), indent=1, default=str)
         print("%s %s: %d obligations, %d discharged, %d evaluations, %d violations, %d known findings, %.1fs" % (
             self.pid, self.tier, nob, ndis, self.evaluations, len(real), len(kf), time.time() - self.t0))
         return 1 if real else 0
